@@ -149,8 +149,8 @@ def replay_of(h, upto):
 import xicheck  # noqa: E402  (needs Obs and friends from this module)
 
 
-def run(a, prop, sections, oracle, what, compare_results=("TX", "EB", "INIT", "BB", "AW", "BU", "CM"), extra=None):
-    res = c.build(["app"])
+def run(a, prop, sections, oracle, what, compare_results=("TX", "EB", "INIT", "BB", "AW", "BU", "CM"), extra=None, bins=("app",)):
+    res = c.build(list(bins))
     v = c.Verdict(prop, a.tier, a.seed)
     c.check_build(v, res, prop)
     ev = c.base_evidence(prop, a.tier, a.seed, res)
@@ -216,7 +216,7 @@ def run(a, prop, sections, oracle, what, compare_results=("TX", "EB", "INIT", "B
                 break
     xicheck.run(prop, v, out, hists, cov)
     if extra is not None:
-        extra(v, out, hists, cov)
+        extra(v, out, hists, cov, a, res)
     stats = json.load(open(os.path.join(out, "app.stats.json")))
     cov.update({
         "evaluations": len(hists), "distinct_nontrivial": len(distinct),
